@@ -77,12 +77,14 @@ impl<'a> Iterator for ChannelSpecIterator<'a> {
             if *x == b'!' {
                 self.chars.next();
             }
-            lexical_core::parse_partial(self.chars.as_slice())
-                .map(|(n, len)| {
+            match lexical_core::parse_partial(self.chars.as_slice()) {
+                // Nothing was consumed, there is no number here
+                Ok((_, 0)) | Err(_) => Err(ErrorCode::ExpressionError),
+                Ok((n, len)) => {
                     self.chars.nth(len - 1).unwrap();
-                    n
-                })
-                .map_err(|_| ErrorCode::ExpressionError)
+                    Ok(n)
+                }
+            }
         })
     }
 }
